@@ -42,9 +42,10 @@ def check_case(ctx, case, m):
     if disc.nontrivial(b):
         ctx.nontrivial.add((mon, rep["spec"], tuple((k, tuple(v)) for k, v in sorted(case["data"].items()))))
     if not same_vals(a, b):
-        i = next(j for j in range(len(b)) if j >= len(a) or common.canon(a[j]) != common.canon(b[j]))
-        return Violation("%s monitor: modular specification returns %r at step %d, its inlined form %r: %s"
-                         % (mon, a[i] if i < len(a) else None, i, b[i], rep["spec"].replace("\n", " ")), rep, stream="mod"), None
+        i = next((j for j in range(len(b)) if j >= len(a) or common.canon(a[j]) != common.canon(b[j])), len(b))
+        return Violation("%s monitor: modular specification returns %r at step %d (%d values), its inlined form %r (%d values): %s"
+                         % (mon, a[i] if i < len(a) else None, i, len(a), b[i] if i < len(b) else None, len(b),
+                            rep["spec"].replace("\n", " ")), rep, stream="mod"), None
     if mon == "ond" and m is not None:
         if m[0] != "ok" or [r[-1] for r in m[1]] != a and not same_vals([r[-1] for r in m[1]], a):
             if any(x != x for x in a):
